@@ -9,10 +9,11 @@ for n in $names; do
   [ -f $d/patch.diff ] || continue
   if [ -n "$(git -C /repo status --porcelain --untracked-files=no)" ]; then echo "repo dirty, abort"; exit 2; fi
   props=$(python3 -c "import json;m=json.load(open('$d/meta.json'));print(','.join(m.get('checks',[m['property']])))")
+  [ -n "$ALL" ] && props=all
   git -C /repo apply /verif/$d/patch.diff || { echo "$n: patch does not apply"; continue; }
   out=$(./vcheck.sh -p $props -no-evidence 2>&1); rc=$?
   git -C /repo checkout -- .
   if [ $rc -eq 0 ]; then echo "$n: SILENT ($props)";
-  elif [ $rc -eq 1 ]; then echo "$n: ALARM from $props"; echo "$out" | grep "violation:" | head -4 | cut -c1-300 | sed 's/^/      /';
-  else echo "$n: UNDECIDED rc=$rc"; echo "$out" | grep -i "undecided" | head -3 | cut -c1-300; fi
+  elif [ $rc -eq 1 ]; then echo "$n: ALARM from $props"; echo "$out" | grep -E "^VIOLATION|violation:" | head -8 | cut -c1-300 | sed 's/^/      /';
+  else echo "$n: UNDECIDED rc=$rc"; echo "$out" | grep -E "^UNDECIDED|^VIOLATION" | head -6 | cut -c1-300; fi
 done
